@@ -250,6 +250,11 @@ class Ev:
             return _bm(n.id)
         if n.id in ("dict", "type", "isinstance", "NoneType"):
             return _bm(n.id)
+        if self.self_cls is not None:
+            # a class-level expression refers to earlier class-level names by their bare name
+            c_, v_ = self.repo.find_attr(self.self_cls, n.id)
+            if v_ is not None and self.depth < 12:
+                return self._mk(c_.mod, self_cls=c_, depth=self.depth + 1).ev(v_)
         raise Unknown("name %s" % n.id)
 
     def class_attr(self, ci, attr):
@@ -429,6 +434,8 @@ class Ev:
                 raise Unknown("unpack")
             for t, x in zip(target.elts, v):
                 self._bind(t, x, env)
+        elif isinstance(target, ast.Attribute):
+            env[ast.unparse(target)] = v
         else:
             raise Unknown("bind target")
 
@@ -497,17 +504,20 @@ class Ev:
                 if full in self.hooks:
                     return self.hooks[full]([self.ev(a) for a in n.args])
         args = []
-        for a in n.args:
-            if isinstance(a, ast.Starred):
+        dyn_attr = fname in ("getattr", "setattr", "hasattr") and n.args and _self_rooted(n.args[0]) and "self" not in self.env
+        for i_, a in enumerate(n.args):
+            if dyn_attr and i_ == 0:
+                args.append(None)           # the object itself is not evaluated: only its attribute is read / written
+            elif isinstance(a, ast.Starred):
                 args.extend(self.ev(a.value))
             else:
                 args.append(self.ev(a))
         kw = {k.arg: self.ev(k.value) for k in n.keywords}
-        if fname in ("getattr", "setattr", "hasattr") and n.args and isinstance(n.args[0], ast.Name) \
-                and n.args[0].id == "self" and "self" not in self.env and len(args) >= 2 and isinstance(args[1], str) and not kw:
-            # attribute of the object under evaluation selected by a folded name
-            key = "self." + args[1]
-            node = ast.Attribute(value=ast.Name(id="self", ctx=ast.Load()), attr=args[1], ctx=ast.Load())
+        if fname in ("getattr", "setattr", "hasattr") and n.args and _self_rooted(n.args[0]) and "self" not in self.env \
+                and len(args) >= 2 and isinstance(args[1], str) and not kw:
+            # attribute of the object under evaluation (or of an object reached from it) selected by a folded name
+            key = ast.unparse(n.args[0]) + "." + args[1]
+            node = ast.Attribute(value=n.args[0], attr=args[1], ctx=ast.Load())
             if fname == "setattr" and len(args) == 3:
                 self.env[key] = args[2]
                 return None
@@ -578,10 +588,14 @@ class Ev:
         if isinstance(n.func, ast.Attribute) and isinstance(n.func.value, ast.Name) and n.func.value.id == "self" \
                 and "self" not in self.env and self.self_cls is not None and ast.unparse(n.func) not in self.env:
             c_, m_ = self.repo.find_method(self.self_cls, n.func.attr)
-            if m_ is not None and not any(isinstance(d, ast.Name) and d.id in ("staticmethod", "classmethod", "property")
-                                          for d in m_.decorator_list):
+            decos = {d.id for d in m_.decorator_list if isinstance(d, ast.Name)} if m_ is not None else set()
+            if m_ is not None and not (decos & {"staticmethod", "classmethod", "property"}):
                 bound = self._bindargs(m_, ["<self>"] + args, kw)
                 return self.call_func(m_, c_.mod, bound, self_cls=self.self_cls, writeback=True)
+            if m_ is not None and "staticmethod" in decos:
+                return self.call_func(m_, c_.mod, self._bindargs(m_, args, kw), self_cls=self.self_cls)
+            if m_ is not None and "classmethod" in decos:
+                return self.call_func(m_, c_.mod, self._bindargs(m_, [ClassRef(self.self_cls)] + args, kw), self_cls=self.self_cls)
         f = None
         try:
             f = self.ev(n.func)
@@ -614,7 +628,11 @@ class Ev:
                     meth, [ClassRef(ci)] + args, kw), self_cls=ci)
             raise Unknown("instance method call")
         if isinstance(f, ClassRef):
-            raise Unknown("constructor call %s" % f.ci.name)
+            if f.ci.name in self.hooks:
+                return self.hooks[f.ci.name](args)
+            if self.is_enum(f.ci):
+                raise Unknown("enum lookup by value %s" % f.ci.name)
+            return Instance(f.ci)           # an object of that class; nothing but its class is known
         raise Unknown("call %s" % fname)
 
     def _method(self, recv, name, args, kw, n):
@@ -872,6 +890,12 @@ _BRK = object()
 _STR_METHODS = {"strip", "lstrip", "rstrip", "split", "rsplit", "startswith", "endswith", "lower", "upper", "isdigit",
                 "partition", "rpartition", "find", "rfind", "replace", "join", "encode", "isalnum", "isalpha",
                 "zfill", "splitlines", "count", "index"}
+
+
+def _self_rooted(e):
+    while isinstance(e, ast.Attribute):
+        e = e.value
+    return isinstance(e, ast.Name) and e.id == "self"
 
 
 class ReMatch(object):
